@@ -32,8 +32,8 @@ WORKER = os.path.join(VERIF, "harness", "c15_worker.py")
 INVARIANTS = ["TypeOK", "LastDefinerWins", "NothingLostNothingInvented", "RepetitionKeepsLast"]
 
 TIERS = {
-    "quick": dict(shapes=["none", "gv", "sv", "gv+gw"], maxlen=3, nseeds=4, slices=4, e3_every=8),
-    "thorough": dict(shapes=["none", "gv", "sv", "gv+sv", "gw", "gv+gw"], maxlen=3, nseeds=8, slices=2, e3_every=3),
+    "quick": dict(shapes=["none", "gv", "sv", "gv+gw"], maxlen=3, nseeds=4, slices=3, e3_every=4),
+    "thorough": dict(shapes=["none", "gv", "sv", "gv+sv", "gw", "gv+gw", "sv+gw"], maxlen=3, nseeds=8, slices=2, e3_every=3),
 }
 KEYS_OF = {"none": [], "gv": ["gv"], "sv": ["sv"], "gv+sv": ["gv", "sv"], "gw": ["gw"], "gv+gw": ["gv", "gw"], "sv+gw": ["sv", "gw"]}
 
@@ -257,6 +257,8 @@ def input_class(c):
     distinct = len(set(c["order"]))
     if distinct == 1:
         return "single-file"
+    if distinct < len(c["order"]):
+        return "repeated-file"          # some file is named twice in the list: its last position counts
     return "several-files"
 
 
@@ -364,7 +366,8 @@ def run(tier):
     c2 = write_cfg(os.path.join(gen, "UserVars_emit_%s.cfg" % tier), t, True, ["EmitCase"])
     r2 = tlc.run_tlc("UserVars", c2, workers=1, timeout=600)
     cases = r2["cases"]
-    want = len(t["shapes"]) ** 3 * sum(3 ** l for l in range(1, t["maxlen"] + 1))
+    import itertools
+    want = sum(len(t["shapes"]) ** len(set(o)) for l in range(1, t["maxlen"] + 1) for o in itertools.product((1, 2, 3), repeat=l))
     if len(cases) != want:
         raise MachineryError("TLC emitted %d cases, expected %d" % (len(cases), want))
     cases.sort(key=case_id)
@@ -379,7 +382,7 @@ def run(tier):
     result = run_processes(chk, t, cases, seeds)
     judge(chk, cases, seeds, result)
     judge_rich(chk, seeds, result, [c["id"] for c in rich_cases("x")])
-    chk.cov["rule"] = ("user-variable family: every assignment of %d shapes to 3 files x every list of length <= %d over the files (repetitions "
+    chk.cov["rule"] = ("user-variable family: every assignment of %d shapes to the files of the list x every list of length <= %d over the files (repetitions "
                        "included), each loaded through 2-3 entry points in %d processes (PYTHONHASHSEED %s), variants of the documents with shuffled "
                        "mapping keys, shuffled directory listings; rich packages: %d, all processes" % (
                            len(t["shapes"]), t["maxlen"], len(seeds), seeds, len(rich_cases("x"))))
